@@ -144,8 +144,10 @@ func c11Inventory(c *ctx, repo string) {
 			}
 		case strings.HasPrefix(why, "lemma: "):
 			res.hist("inventory:by-lemma")
-			for _, name := range strings.Split(strings.TrimPrefix(why, "lemma: "), ", ") {
-				name = strings.TrimSpace(strings.SplitN(name, " ", 2)[0])
+			// "lemma: <theorem>[, <theorem>...] [(free-text note)]"
+			names := strings.SplitN(strings.TrimPrefix(why, "lemma: "), " (", 2)[0]
+			for _, name := range strings.Split(names, ", ") {
+				name = strings.TrimSpace(name)
 				if !theorems[name] {
 					report(k, "present in source", "justified by a theorem that does not exist: "+name)
 				}
